@@ -400,4 +400,5 @@ def replay(prop, path):
     from . import witness
     with open(path) as fh:
         r = json.load(fh)
+    r["_path"] = path
     return witness.replay(prop, r)
